@@ -194,6 +194,39 @@ Definition deliveries (st : state) (h : list frag) : list delivered := concat (s
 Definition deliv_for (k : ident3) (ds : list delivered) : list delivered :=
   filter (fun d => id_eqb (d_id d) k) ds.
 
+(** ** Damaged copies
+
+    [recv_bundle] starts with [check_all_crc]: a bundle with an invalid block CRC (primary
+    or canonical) is dropped before its identity is even looked at -- it is not recorded
+    as seen, it never reaches the chain.  An arrival is an intact fragment or a damaged
+    copy of one (its content is irrelevant). *)
+Inductive arrival := Intact (f : frag) | Damaged (f : frag).
+
+Definition agent_recv_arr (st : state) (a : arrival) : state * list delivered :=
+  match a with
+  | Intact f => agent_recv st f
+  | Damaged _ => (st, [])
+  end.
+
+Fixpoint run_arr (st : state) (h : list arrival) : state * list (list delivered) :=
+  match h with
+  | [] => (st, [])
+  | a :: r =>
+      let '(st1, ds) := agent_recv_arr st a in
+      let '(st2, dss) := run_arr st1 r in
+      (st2, ds :: dss)
+  end.
+
+Definition deliveries_arr (st : state) (h : list arrival) : list delivered := concat (snd (run_arr st h)).
+
+(** The CRC-valid fragments of an arrival history, in order. *)
+Fixpoint intact_only (h : list arrival) : list frag :=
+  match h with
+  | [] => []
+  | Intact f :: r => f :: intact_only r
+  | Damaged _ :: r => intact_only r
+  end.
+
 (** ** Vocabulary of the property *)
 
 (** [f] is a fragment of the bundle [k] with payload [p]: right identity, right total,
@@ -246,4 +279,17 @@ Fixpoint run_render (st : state) (h : list frag)
   | f :: r =>
       let '(st1, ds) := agent_recv st f in
       (step_code st f, map render_delivered ds, map render_entry (st_tbl st1)) :: run_render st1 r
+  end.
+
+(** The same for arrival histories with damaged copies: outcome code 5 = discarded for an
+    invalid CRC (nothing delivered, table as before). *)
+Fixpoint run_render_arr (st : state) (h : list arrival)
+  : list (N * list (list N * bytes * list blk) * list (list N * N * ivl * bytes * option N)) :=
+  match h with
+  | [] => []
+  | Intact f :: r =>
+      let '(st1, ds) := agent_recv st f in
+      (step_code st f, map render_delivered ds, map render_entry (st_tbl st1)) :: run_render_arr st1 r
+  | Damaged _ :: r =>
+      (5, [], map render_entry (st_tbl st)) :: run_render_arr st r
   end.
